@@ -196,7 +196,12 @@ fn history_for(seed: u64, i: usize, pool: &[String], last: &str) -> Vec<String> 
 
 pub fn replay(case: &Value) -> Result<Verdict, String> {
     if case["kind"] == "fuzz-input" {
-        return crate::fuzzrun::replay(case);
+        // the input of the `total` target is the text itself: judged under the CPU limit like any other
+        let data = crate::fuzzrun::unhex(case["hex"].as_str().ok_or("hex")?);
+        return Ok(match crate::fuzzdec::total_case(&data) {
+            Some(text) => judge_with_deadline(&text)?,
+            None => Verdict::Skip("outside the target's domain"),
+        });
     }
     if case["kind"] == "history" {
         let h: Vec<String> = case["inputs"].as_array().ok_or("no inputs")?.iter().filter_map(|v| v.as_str().map(|s| s.to_string())).collect();
@@ -205,9 +210,13 @@ pub fn replay(case: &Value) -> Result<Verdict, String> {
             Err(e) => Verdict::Fail(e),
         });
     }
-    let input = case["input"].as_str().ok_or("no input")?.to_string();
-    // on a thread of its own, under the same CPU limit (a hanging call cannot be stopped: the
-    // verdict is returned and the process ends with the thread still running)
+    judge_with_deadline(case["input"].as_str().ok_or("no input")?)
+}
+
+/// `judge` on a thread of its own, under the same CPU limit as in the worker processes (a hanging
+/// call cannot be stopped: the verdict is returned and the process ends with the thread still running)
+pub fn judge_with_deadline(input: &str) -> Result<Verdict, String> {
+    let input = input.to_string();
     let (tx, rx) = std::sync::mpsc::channel();
     let text = input.clone();
     let cpu0 = process_cpu_secs().unwrap_or(0.0);
